@@ -227,6 +227,9 @@ Fixpoint tcp_hops (cur : list byte) (l : list hop) : list sop * bool (* panicked
   | HLease :: r => tcp_hops [] r
   | HAppend bs :: r => tcp_hops (cur ++ bs) r
   | HWriteLease :: r => let '(o, p) := tcp_hops cur r in (SStage cur :: o, p)
+  (* tcpJob.WriteMsg: PackBuffer(j.tx[2:]) — in the job's own TX or an array of the library's —
+     then the same size guard as Write and stream.stage(out), which COPIES out into the drain *)
+  | HWriteMsg _ bs :: r => let '(o, p) := tcp_hops cur r in (SStage bs :: o, p)
   | HFlushStaged :: r => let '(o, p) := tcp_hops cur r in (SFlush :: o, p)
   end.
 (* serveFrame: the operations of one frame, and whether the connection goes on *)
